@@ -180,7 +180,23 @@ impl TreeGen {
 		} as usize;
 		let mut children = Vec::new();
 		let mut shapes = Vec::new();
+		// a wide node: its children are leaves and do not draw on the node budget
+		let wide = fanout >= 60;
+		if wide {
+			crate::gen::feature("tree_wide_node");
+		}
 		for _ in 0..fanout {
+			if wide {
+				if r.chance(1, 12) {
+					let (t, s) = self.gen_tree(r, c, 4, exclude, &mut 0);
+					children.push(ChildSpec::New(t));
+					shapes.push(s);
+				} else {
+					children.push(ChildSpec::New(TreeSpec { data: gen_node_val(r), children: Vec::new() }));
+					shapes.push(Shape { children: Vec::new() });
+				}
+				continue
+			}
 			if *budget == 0 {
 				break
 			}
@@ -247,6 +263,9 @@ impl TreeGen {
 		let free_keys: Vec<usize> =
 			(0..cc.keys.len()).filter(|k| !self.live[c as usize].contains_key(k) && !touched.contains(k)).collect();
 		let mut choice = r.below(100);
+		if !counted.is_empty() {
+			crate::gen::feature("tree_count_ops_repeated_in_tx");
+		}
 		if !counted.is_empty() && r.chance(1, 2) {
 			// several count changes of one tree inside one transaction
 			choice = 50 + r.below(50);
@@ -268,6 +287,7 @@ impl TreeGen {
 						(0..take).map(|i| ChildSpec::Existing { root, path: vec![i as u8] }).collect();
 					let shapes: Vec<Shape> = (0..take).map(|i| self.live[c as usize][&root].0.children[i].clone()).collect();
 					self.live[c as usize].insert(k, (Shape { children: shapes }, 1));
+					crate::gen::feature("tree_wide_sharing");
 					return Some(TxOp::InsertTree(k, TreeSpec { data: gen_node_val(r), children }))
 				}
 			}
@@ -458,6 +478,7 @@ pub fn gen_unrepresentable(r: &mut Rng, cfg: &RunCfg, ts: &TreeGen) -> Option<Op
 		}
 	}
 	tx.push((c, TxOp::InsertTree(*r.pick(&free), unrepresentable_tree(r))));
+	crate::gen::feature("tree_unrepresentable_alone");
 	Some(Op::BadCommit { tx, bg_err: false })
 }
 
